@@ -282,6 +282,8 @@ pub enum ReadPlan {
     TextUtf8,
     /// `split()` then reads with the given sizes
     Split(Vec<usize>),
+    /// write_to() into a sink that accepts at most this many bytes per write call (short writes)
+    WriteToShort(usize),
     /// the json() helper
     Json,
     /// text_reader() drained with the given buffer sizes (used by C02 with ASCII payloads)
@@ -310,6 +312,7 @@ pub fn read_plan() -> BoxedStrategy<ReadPlan> {
         6 => read_sizes().prop_map(ReadPlan::Sizes),
         1 => Just(ReadPlan::Bytes),
         1 => Just(ReadPlan::WriteTo),
+        1 => prop_oneof![Just(1usize), 2usize..100, Just(1000usize), Just(4096usize), Just(10_000usize)].prop_map(ReadPlan::WriteToShort),
         1 => Just(ReadPlan::TextUtf8),
         1 => read_sizes().prop_map(ReadPlan::Split),
         1 => Just(ReadPlan::Json),
